@@ -100,6 +100,11 @@ func (p Password) Match(pw string) (bool, error) {
 }
 
 func (p *Password) UnmarshalJSON(b []byte) error {
+	if string(b) == "null" {
+		// no password, which is different from the empty password
+		*p = Password{}
+		return nil
+	}
 	var k string
 	err := json.Unmarshal(b, &k)
 	if err == nil {
@@ -118,7 +123,8 @@ func (p *Password) UnmarshalJSON(b []byte) error {
 }
 
 func (p Password) MarshalJSON() ([]byte, error) {
-	if p.Type == "plain" && p.Hash == "" && p.Salt == "" && p.Iterations == 0 {
+	if p.Type == "plain" && p.Key != nil &&
+		p.Hash == "" && p.Salt == "" && p.Iterations == 0 {
 		return json.Marshal(p.Key)
 	}
 	return json.Marshal(RawPassword(p))
